@@ -57,6 +57,28 @@ for p in sorted(root.glob("*.py")):
                     if not any(isinstance(d, ast.Attribute) and d.attr in ("setter", "deleter") for d in x.decorator_list):
                         sig(f"{m}.{st.name}.{x.name}", x)
 out += sigs
+# how the pinned tree calls its own functions: pos:<qualname>=<k> says every call site of the (uniquely named) function passes at
+# least its first k parameters by position; a call that passes one of them by keyword is put in that form before analysis
+defs = {}
+for p in sorted(root.glob("*.py")):
+    tree = ast.parse(p.read_text())
+    m = p.stem
+    for st in tree.body:
+        if isinstance(st, ast.FunctionDef):
+            defs.setdefault(st.name, []).append(f"{m}.{st.name}")
+        elif isinstance(st, ast.ClassDef):
+            for x in st.body:
+                if isinstance(x, ast.FunctionDef) and not x.decorator_list or isinstance(x, ast.FunctionDef) and all(isinstance(d, ast.Name) and d.id in ("staticmethod", "classmethod") for d in x.decorator_list):
+                    defs.setdefault(x.name, []).append(f"{m}.{st.name}.{x.name}")
+mins = {}
+for p in sorted(root.glob("*.py")):
+    for c in ast.walk(ast.parse(p.read_text())):
+        if isinstance(c, ast.Call):
+            nm = c.func.id if isinstance(c.func, ast.Name) else c.func.attr if isinstance(c.func, ast.Attribute) else None
+            if nm in defs and len(defs[nm]) == 1 and not nm.startswith("__"):
+                k = -1 if any(isinstance(a, ast.Starred) for a in c.args) else len(c.args)
+                mins[nm] = min(mins.get(nm, 99), k)
+out += [f"pos:{defs[nm][0]}={k}" for nm, k in mins.items() if 1 <= k < 99]
 dst = Path(__file__).resolve().parents[1] / "hvsa" / "baseline_functions.txt"
 dst.write_text("# functions of the pinned hvsrpy tree (names only); see hvsa/normalize.py\n" + "\n".join(sorted(set(out))) + "\n")
 print(len(out), "functions ->", dst)
